@@ -156,6 +156,25 @@ CLAIMS = {
         "is checked); bincode decoding; snapshot byte layout (exercised, not modelled); the server binary's start-up wrapper "
         "(a removed MANIFEST makes the server initialise an empty database - engine-level recover refuses; see DESIGN).",
    design="§3 C13"),
+ "C12": dict(
+   engine="persist",
+   technique="Lean 4 proof (restore exactness over the disk invariant, chain step, refusal-before-clear decision logic, ancestor closure of pruning for every timeline/policy) + differential correspondence through the real BackupManager/RestoreManager",
+   text="C12_full_restore_exact (a full backup of any directory satisfying the invariant restores to exactly its collection), "
+        "C12_incremental_step_exact (extracting one more incremental over a correctly restored chain yields exactly the "
+        "collection at incremental time; the snapshot clause is what fix b28ccd9 established), C12_altered_chain_refused "
+        "(refused before the clear, whatever the target/confirmation), C12_no_clear_without_confirmation, "
+        "C12_prune_keeps_ancestors / _pruned_iff_not_kept / _retained_kept (every timeline, policy, clock), "
+        "C12_pitr_starts_at_full_before. Tie: random histories with full/incremental backups, ticks incl. same-second, "
+        "restores into empty/dirty targets, PITR, pruning, structural archive/metadata damage: model vs real archive member "
+        "lists, metadata, restore outcome (real strict recover on the restored directory), prune decisions; oracle: restored "
+        "collection = collection when the backup was taken.",
+   note="Partial. Modelled not proved: that segments an incremental does not ship are unchanged since the parent (engine appends "
+        "only to its newest segment; mtime >= parent timestamp) and the two listing facts of Quiescent (no unlisted WAL file, list "
+        "ascending) - hypotheses of the theorems, observed on every run. Archive byte format/checksum not modelled: "
+        "KF-C12-archive-structure-unchecked (member names/count outside the checksum). Two defects fixed: b28ccd9, 7c1da7a. "
+        "Oracle accepts an altered-but-immaterial metadata edit if the restore is still exact (the statement's literal 'rejected' "
+        "would flag description edits).",
+   design="§3 C12"),
 }
 
 NOT_APPLICABLE = {
